@@ -73,7 +73,7 @@ var c20Kinds = []string{
 	"ecdh.pub", "ecdh.ecdh", "ecdh.mqv",
 	"sm9.sign", "sm9.verify", "sm9.wrap", "sm9.unwrap", "sm9.enc", "sm9.dec", "sm9.genuser", "sm9.pub",
 	"sm4.block", "sm4.gcm", "sm4.newgcm", "sm4.cbc", "sm4.ctr", "sm4.ecb",
-	"sm3.sum", "pool.verify", "pool.clone", "fresh.sm2", "fresh.sm9", "fresh.ecdh", "fresh.sm9enc", "fresh.sm4", "fresh.x509", "fresh.sm9parse",
+	"sm3.sum", "pool.verify", "pool.clone", "fresh.sm2", "fresh.sm9", "fresh.ecdh", "fresh.sm9enc", "fresh.sm4", "fresh.x509", "fresh.sm9parse", "fresh.pem",
 }
 
 var c20Group = map[string]string{}
@@ -105,7 +105,7 @@ func genC20(r *sim.Rand, tier string) *sim.Program {
 		// constructs and uses private objects, so that - when this is the first run of the worker process, as it
 		// always is on replay - the process-wide lazily initialised singletons (curve parameters, generator
 		// tables) see their first use from several tasks
-		fresh := []string{"fresh.sm2", "fresh.sm9", "fresh.ecdh", "fresh.sm9enc", "fresh.sm4", "fresh.x509", "fresh.sm9parse"}
+		fresh := []string{"fresh.sm2", "fresh.sm9", "fresh.ecdh", "fresh.sm9enc", "fresh.sm4", "fresh.x509", "fresh.sm9parse", "fresh.pem"}
 		k := fresh[r.Intn(len(fresh))]
 		same := r.Chance(2, 3)
 		for _, t := range r.Perm(nt) {
@@ -125,7 +125,7 @@ func genC20(r *sim.Rand, tier string) *sim.Program {
 		// lazily parsed certificates, GHASH tables ...), half of the time in a warm process
 		pairs := [][2]string{{"sm2.sign", "sm2.signsm2"}, {"sm2.decrypt", "sm2.kx"}, {"sm2.verify", "sm2.encrypt"}, {"ecdh.pub", "ecdh.ecdh"}, {"ecdh.mqv", "ecdh.pub"},
 			{"sm9.sign", "sm9.verify"}, {"sm9.verify", "sm9.verify"}, {"sm9.wrap", "sm9.enc"}, {"sm9.wrap", "sm9.wrap"}, {"sm9.unwrap", "sm9.dec"}, {"sm9.genuser", "sm9.pub"},
-			{"pool.verify", "pool.clone"}, {"sm4.newgcm", "sm4.gcm"}, {"sm4.cbc", "sm4.ctr"}, {"sm2.otherza", "sm2.newhash"}}
+			{"pool.verify", "pool.clone"}, {"sm4.newgcm", "sm4.gcm"}, {"sm4.cbc", "sm4.ctr"}, {"sm2.otherza", "sm2.newhash"}, {"fresh.pem", "fresh.pem"}, {"fresh.x509", "fresh.pem"}}
 		pr := pairs[r.Intn(len(pairs))]
 		if r.Chance(1, 2) {
 			p.SetC("warm", 1)
@@ -800,6 +800,23 @@ func c20Do(w *c20World, kind string, opseed int, msg []byte) (out []byte) {
 			return errb(err)
 		}
 		return leaf.SerialNumber.Bytes()
+	case "fresh.pem":
+		// package-level functions on private data: legacy PEM encryption (RFC 1423) and decryption with the task's own
+		// password; whatever state the package keeps between calls is shared by all tasks
+		alg := []smx509.PEMCipher{smx509.PEMCipherSM4, smx509.PEMCipherAES128, smx509.PEMCipherDES, smx509.PEMCipher3DES, smx509.PEMCipherAES256}[((opseed%5)+5)%5]
+		pw := derive(msg, "pempw", 12)
+		blk, err := smx509.EncryptPEMBlock(rd, "PRIVATE KEY", msg, pw, alg)
+		if err != nil {
+			return errb(err)
+		}
+		back, err := smx509.DecryptPEMBlock(blk, pw)
+		if err != nil {
+			return errb(err)
+		}
+		if !bytes.Equal(back, msg) {
+			return errb(errors.New("legacy PEM decryption does not return what was encrypted"))
+		}
+		return append([]byte(blk.Headers["DEK-Info"]+"|"), blk.Bytes...)
 	case "fresh.ecdh":
 		k, err := ecdh.P256().NewPrivateKey(scalarFrom(msg, "fe"))
 		if err != nil {
